@@ -190,7 +190,7 @@ def inject_rule(r, spec):
         spec["cast"] = {r.choice(["int", "bool"]): "str"}
         return spec, "an unsupported cast"
     if choice == "cast-shape":
-        spec["cast"] = r.choice([["str", "int"], "str", 5])
+        spec["cast"] = r.choice([["str", "int"], "str", 5, [], "", 0, False, (), 0.0])
         return spec, "a mis-shaped cast"
     spec["doc"] = r.choice([5, {"description": [1, 2]}, {"description": {"a": 1}}, {"description": "x", "examples": "y"}, {"examples": [None]}])
     return spec, "a mis-shaped doc"
@@ -253,6 +253,10 @@ def generate(rng, n, tier):
         ("path", {}, True, "an empty mapping"), ("path", {"path.simplify": ["a"]}, True, "an unknown path suffix"),
         ("cond", {"value.equal_to": {}}, False, "mutation"), ("cond", {"value.in": [{}]}, False, "mutation"),
         ("rule", {"path": ["a"], "condition": {}, "cast": ["str"]}, True, "a mis-shaped cast"),
+        ("rule", {"path": ["a"], "condition": {}, "cast": []}, True, "a mis-shaped cast (an empty list)"),
+        ("rule", {"path": ["a"], "condition": {}, "cast": ""}, True, "a mis-shaped cast (an empty string)"),
+        ("rule", {"path": ["a"], "condition": {}, "cast": False}, True, "a mis-shaped cast (false)"),
+        ("rule", {"path": ["a"], "condition": {}, "cast": 0}, True, "a mis-shaped cast (0)"),
         ("rule", {"path": ["a"], "condition": {}, "doc": {"description": [1]}}, True, "a mis-shaped doc"),
         ("cond", {"and": [{"and": [{"value.gt": 1}, {"value.lt": 4}]}, {}]}, False, "mutation"),
         ("part", {"type": "map_value", 5: 1}, True, "an unknown part argument"),
